@@ -72,6 +72,8 @@ def c06(chk, thorough):
     chk.floor('T4.argument-privacy', 8)
     threads.t6(chk, prog)
     threads.t7(chk, prog)
+    threads.t8(chk, prog)
+    chk.floor('T8.entry-only-as-thread', 4)
     chk.floor('T7.batch-divides', 2)
     chk.floor('T6.fresh-accumulators', 8)
     if thorough:
